@@ -182,8 +182,17 @@ pub fn run_case(case: &Case) -> Result<(bool, Vec<&'static str>), Failure> {
     let queue = case.sends.iter().any(|s| s.follower);
     let mut hop_ch: Vec<Ch> = vec![Ch::None; k];
     let mut connected = vec![false; k];
+    let mut repeat_panic: Option<String> = None;
     let mut do_connect = |h: usize, flipped: bool, ch: &Ch, connected: &mut Vec<bool>, hop_ch: &mut Vec<Ch>| {
         let (a, b) = if flipped { (gates[h + 1].clone(), gates[h].clone()) } else { (gates[h].clone(), gates[h + 1].clone()) };
+        if connected[h] {
+            // a repeated call for an existing hop is a no-op (connect is idempotent), whatever else the gates are
+            // connected to by now
+            if let Err((msg, _)) = catch(|| a.clone().connect(b.clone(), metrics(ch, queue).map(Channel::new))) {
+                repeat_panic.get_or_insert(format!("repeated connect of hop {h} ({}flipped) panicked: {msg}", if flipped { "" } else { "not " }));
+            }
+            return;
+        }
         a.connect(b, metrics(ch, queue).map(Channel::new));
         if !connected[h] {
             connected[h] = true;
@@ -211,6 +220,12 @@ pub fn run_case(case: &Case) -> Result<(bool, Vec<&'static str>), Failure> {
         }
     }
 
+    if let Some(msg) = repeat_panic {
+        // the panic was raised while the gates were locked; nothing else can be checked on this chain
+        drop(gates);
+        drop(sim);
+        vfail!("connect-not-idempotent", "{msg}");
+    }
     let structure = |when: &str| -> Result<(), Failure> {
         for (i, g) in gates.iter().enumerate() {
             let want = if i == 0 || i == k { GateKind::Endpoint } else { GateKind::Transit };
